@@ -124,15 +124,20 @@ def a_gate(ctx, flows):
 
 def b_flag(ctx, flows):
     f = consumer(flows)
-    # (i) typestate: every path on which the skip branch is taken resets the flag
+    # (i) typestate: in EVERY configuration (rails configured or not, output category enabled or
+    # not) a set skip flag is consumed (reset) before the flow ends: it is one-shot
     w = Walker()
-    env = {"config": rails.config_obj(out=["r1"]), "generation_options": None, FLAG_V1: True}
-    paths = w.run(f.body, env)
-    ok, msg = True, "with the skip flag set, every path resets `$%s = False` before the flow ends (one-shot)" % FLAG_V1
-    for p in paths:
-        if not any(s.kind == "assign" and s.target == FLAG_V1 and re.sub(r"\s", "", s.expr or "") in ("False", "None") for s in p.steps):
-            ok, msg = False, "a path with the skip flag set never resets it: every later turn of the conversation skips the output rails (path: %s)" % " > ".join(p.texts())
-    ctx.check("C02.b.flag-consumed", f.file, f.name, "$%s typestate" % FLAG_V1, ok, msg, line=f.line)
+    for fl_name, fl in (("empty", []), ("nonempty", ["r1"])):
+        for op_name, op in (("None", None), ("output=True", rails.rails_options(output=True)), ("output=False", rails.rails_options(output=False))):
+            env = {"config": rails.config_obj(out=fl), "generation_options": op, FLAG_V1: True, "event": TOP}
+            paths = w.run(f.body, env)
+            label = "flows=%s options=%s" % (fl_name, op_name)
+            ok, msg = True, "%s: with the skip flag set, every path resets `$%s = False` before the flow ends (one-shot)" % (label, FLAG_V1)
+            for p in paths:
+                if not any(s.kind == "assign" and s.target == FLAG_V1 and re.sub(r"\s", "", s.expr or "") in ("False", "None") for s in p.steps):
+                    ok, msg = False, ("%s: a path with the skip flag set never resets it, so the flag set for one predefined message survives into a later turn "
+                                      "and that turn's LLM/bot message skips the output rails (path: %s)" % (label, " > ".join(p.texts())))
+            ctx.check("C02.b.flag-consumed", f.file, f.name, "$%s typestate %s" % (FLAG_V1, label), ok, msg, line=f.line)
     # no Colang flow sets the flag to a truthy value
     for fl in list(flows) + rails.library_flows(ctx.tree):
         for s in fl.walk():
